@@ -33,7 +33,8 @@ def ensure_libs(features=("std", "auto-collect", "finalization", "derive", "weak
             env["CARGO_NET_OFFLINE"] = "true"
             env["RUSTFLAGS"] = "-Awarnings"
             env.pop("RUSTC_WORKSPACE_WRAPPER", None)
-            r = subprocess.run(["cargo", "+nightly", "build", "--offline", "--lib", "--no-default-features", "-F", ",".join(features)],
+            # metadata only: the probes are type-checked (`--emit=metadata`), never linked or run
+            r = subprocess.run(["cargo", "+nightly", "check", "--offline", "--lib", "--no-default-features", "-F", ",".join(features)],
                                cwd=repo, env=env, stdout=subprocess.PIPE, stderr=subprocess.STDOUT, text=True)
             if r.returncode != 0:
                 return None, r.stdout[-3000:]
@@ -52,7 +53,7 @@ def ensure_libs(features=("std", "auto-collect", "finalization", "derive", "weak
 def _extern_args(d):
     args = ["-L", "dependency=" + d]
     for f in sorted(os.listdir(d)):
-        if f.startswith("librust_cc-") and f.endswith(".rlib"):
+        if f.startswith("librust_cc-") and f.endswith(".rmeta"):
             args += ["--extern", "rust_cc=" + os.path.join(d, f)]
         if f.startswith("librust_cc_derive-") and f.endswith(".so"):
             args += ["--extern", "rust_cc_derive=" + os.path.join(d, f)]
